@@ -42,9 +42,9 @@ winning call closes after taking the running token.  (`wg.Wait()` additionally w
 that have already released the token and touch no shared state any more; this is not modelled, the
 model lets `Close` return earlier than the code does.)
 
-Modelling assumption A1 (stated in design/C06.md): `deadline = scheduled − clock.Now()` followed by
-`clock.NewTimer(deadline)` is one step with respect to the clock (`decide`): the clock does not
-advance between the two calls.
+`deadline = scheduled − clock.Now()` (`decide`) and `clock.NewTimer(deadline)` (`arm`) are two steps:
+the clock may advance between them, and then the timer fires late by exactly that advance
+(`late_bound` in `KitProofs/Props/C06.lean`; ghost fields `readAt`, `armAt`).
 -/
 namespace Kit.Processor
 open Kit.Queue
@@ -103,7 +103,7 @@ def sourceIsFixed : Bool :=
 /-- Hook points (without the `queue.` prefix) at which the harness parks a goroutine and for which
 the driver knows the program counter of the model. -/
 def parkPoints : List String :=
-  ["loop.peeked", "loop.sawEmpty", "loop.beforeArm", "loop.parked", "loop.fired", "loop.reset",
+  ["loop.peeked", "loop.sawEmpty", "loop.beforeArm", "loop.beforeTimer", "loop.parked", "loop.fired", "loop.reset",
    "loop.exit", "execute.popped", "process.resetSent", "process.tokenTaken",
    "enqueue.afterStoppedCheck", "close.afterCAS"]
 
@@ -117,7 +117,8 @@ inductive Pc (κ ν : Type) where
   | top                             -- about to `lock; Peek; unlock`
   | peeked (r : Item κ ν)           -- Peek returned `r`; about to poll stop/reset
   | polled (r : Item κ ν)           -- poll fell through; about to read the clock
-  | armed (r : Item κ ν)            -- timer for `r.time` armed; in the 3-way select
+  | arming (r : Item κ ν)           -- clock read, `deadline` computed; about to call `NewTimer(deadline)`
+  | armed (r : Item κ ν)            -- timer armed (fires when `now ≥ timer`); in the 3-way select
   | firing (r : Item κ ν)           -- about to call `execute(r)`
   | popped (r : Item κ ν)           -- `r` popped under the lock; about to call `executeFn(r)`
   | running (r : Item κ ν)          -- inside `executeFn(r)`
@@ -149,6 +150,12 @@ structure State (κ ν : Type) where
   now : Int
   nextId : Nat
   log : List (Event κ ν)
+  /-- while `arming`: the duration `scheduled − Now()`; while `armed`: the instant the timer fires. -/
+  timer : Int := 0
+  /-- ghost: the clock value the loop last read (`decide`). -/
+  readAt : Int := 0
+  /-- ghost: the clock value at which the loop last created a timer (`arm`). -/
+  armAt : Int := 0
   deriving Repr, DecidableEq
 
 inductive Label (κ ν : Type) where
@@ -165,6 +172,7 @@ inductive Label (κ ν : Type) where
   | peek (hd : Option (Item κ ν))
   | pollStop | pollReset | pollNone
   | decide
+  | arm
   | timerFire | recvReset | recvStop
   | execCheck (hd : Option (Item κ ν))
   | cbStart | cbReturn
@@ -267,19 +275,25 @@ def step (cfg : Cfg) (s : State κ ν) : Label κ ν → Option (State κ ν)
     | _ => none
   | .decide =>
     match s.pc with
-    | .polled r => if r.time - s.now < halfMs then some { s with pc := .firing r } else some { s with pc := .armed r }
+    | .polled r =>
+      if r.time - s.now < halfMs then some { s with pc := .firing r, readAt := s.now }
+      else some { s with pc := .arming r, timer := r.time - s.now, readAt := s.now }
+    | _ => none
+  | .arm =>
+    match s.pc with
+    | .arming r => some { s with pc := .armed r, timer := s.now + s.timer, armAt := s.now }
     | _ => none
   | .timerFire =>
     match s.pc with
-    | .armed r => if r.time ≤ s.now then some { s with pc := .firing r } else none
+    | .armed r => if s.timer ≤ s.now then some { s with pc := .firing r, timer := 0 } else none
     | _ => none
   | .recvReset =>
     match s.pc with
-    | .armed _ => if s.reset then some { s with reset := false, pc := .top } else none
+    | .armed _ => if s.reset then some { s with reset := false, pc := .top, timer := 0 } else none
     | _ => none
   | .recvStop =>
     match s.pc with
-    | .armed _ => if s.stopClosed then some { s with pc := .exiting } else none
+    | .armed _ => if s.stopClosed then some { s with pc := .exiting, timer := 0 } else none
     | _ => none
   | .execCheck hd =>
     match s.pc with
@@ -307,7 +321,7 @@ def lts (cfg : Cfg) : LTS (State κ ν) (Label κ ν) := { init := init, step :=
 
 /-- Labels of the loop goroutine (its lock-free steps, its two critical sections, the callback). -/
 def Label.isLoop : Label κ ν → Bool
-  | .peek _ | .pollStop | .pollReset | .pollNone | .decide | .timerFire | .recvReset | .recvStop
+  | .peek _ | .pollStop | .pollReset | .pollNone | .decide | .arm | .timerFire | .recvReset | .recvStop
   | .execCheck _ | .cbStart | .cbReturn | .release => true
   | _ => false
 
@@ -318,7 +332,7 @@ def Label.isInternal : Label κ ν → Bool
 
 /-- Candidate internal labels in `s` (a finite list; those not enabled are filtered by `taus`). -/
 def tauCandidates (s : State κ ν) : List (Label κ ν) :=
-  [.closeStopCh, .closeTake, .closeReturn, .pollStop, .pollReset, .pollNone, .decide, .timerFire,
+  [.closeStopCh, .closeTake, .closeReturn, .pollStop, .pollReset, .pollNone, .decide, .arm, .timerFire,
    .recvReset, .recvStop, .cbStart, .cbReturn, .release, .peek none, .execCheck none]
   ++ s.q.map (fun r => .peek (some r)) ++ s.q.map (fun r => .execCheck (some r))
 
